@@ -30,8 +30,8 @@ CLAIMED = {
    technique="symbolic execution with assume-guarantee contract stubs + automatic differentiation + polynomial normal form + z3; finite-difference replay with concrete smooth leaves",
    design="4/C04"),
  "C01": dict(
-   text="Link-by-link: (L1) the real eval_xc_cider and everything it orchestrates (semilocal and fractional-Laplacian plans incl. get_s2/alpha derivatives, normaliser list, MappedXC/MappedXC2, baselines, xmix, additive semilocal part) is executed symbolically for 4 semilocal modes x nspin x SEP/NPOL/POL x both evaluator versions x feature layouts, and z3 shows vxc, vxc_nldf, vxc_sdmx equal the mechanical derivative of exc*n on every path. Further links (plan, generator, matrix assembly) are added as they are built; the end-to-end claim is the chain rule over the links.",
-   note="grid points 1-2; region rho > 1e-6, tau > tau_W (clamps are C08); leaves by contract (C12, C04); libxc/PySCF eval_xc_eff trusted; links L2/L3/L5 see DESIGN.md for which are built.",
+   text="Link by link, each on the real code with the neighbouring links as contract stubs: (L1) eval_xc_cider and everything it orchestrates (semilocal and fractional-Laplacian plans incl. get_s2/alpha derivatives, normaliser list, MappedXC/MappedXC2, baselines, xmix, additive semilocal part) for 4 semilocal modes x nspin x SEP/NPOL/POL x both evaluator versions x feature layouts: vxc, vxc_nldf, vxc_sdmx equal the mechanical derivative of exc*n on every path; (L2) NLDFAuxiliaryPlan.eval_rho_full / eval_vxc_full (versions i, j, ij, k; GGA/MGGA exponents; rho_mult one/expnt; both coefficient orders; both spins): vf = dE/df and the density potential for E = sum_i v_i feat_i; (L3) LCAONLDFGenerator.get_features / get_potential over the real plan (interpolation arguments, get_function_to_convolve incl. the expnt product rule, index map, weights): vrho = dE/d rho_data; (L5) nr_rks / nr_uks / nr_rks_nldf / nr_uks_nldf: vmat contracted with a symmetric direction equals the derivative of excsum, nelec is the density integral. The end-to-end statement is the chain rule over the links.",
+   note="1-2 grid points, nao = 2; region rho > 1e-6, tau > tau_W (clamps are C08); leaves by contract (feature maps C12, evaluators C04, interpolation coefficients C02/C11, the theta -> f convolution chain and its transpose C05); PySCF primitives are numpy reference stubs in L5; version ij in L3 at one grid point, ij/expnt inconclusive there; PyscfNLDFGenerator's own set-up, SDMX/FracLapl generators and the GPAW interface are not executed.",
    technique="symbolic execution of the orchestration code with contract stubs + automatic differentiation + z3",
    design="4/C01"),
  "C07": dict(
